@@ -29,7 +29,8 @@ func Equal(a, b any) bool { //nolint: gocyclo
 		return true
 	case reflect.Bool:
 		return ra.Bool() == rb.Bool()
-	case reflect.Int, reflect.Int8, reflect.Int16, reflect.Int32, reflect.Int64:
+	case reflect.Int, reflect.Int8, reflect.Int16, reflect.Int32, reflect.Int64,
+		reflect.Uint, reflect.Uint8, reflect.Uint16, reflect.Uint32, reflect.Uint64:
 		return ra.Convert(int64Type).Int() == rb.Convert(int64Type).Int()
 	case reflect.Float32, reflect.Float64:
 		return ra.Convert(float64Type).Float() == rb.Convert(float64Type).Float()
@@ -64,7 +65,8 @@ func Less(a, b any) bool {
 	switch joinKind(ra.Kind(), rb.Kind()) {
 	case reflect.Bool:
 		return !ra.Bool() && rb.Bool()
-	case reflect.Int, reflect.Int8, reflect.Int16, reflect.Int32, reflect.Int64:
+	case reflect.Int, reflect.Int8, reflect.Int16, reflect.Int32, reflect.Int64,
+		reflect.Uint, reflect.Uint8, reflect.Uint16, reflect.Uint32, reflect.Uint64:
 		return ra.Convert(int64Type).Int() < rb.Convert(int64Type).Int()
 	case reflect.Float32, reflect.Float64:
 		return ra.Convert(float64Type).Float() < rb.Convert(float64Type).Float()
@@ -84,7 +86,8 @@ func joinKind(a, b reflect.Kind) reflect.Kind { //nolint: gocyclo
 		if b == reflect.Array || b == reflect.Slice {
 			return reflect.Slice
 		}
-	case reflect.Int, reflect.Int8, reflect.Int16, reflect.Int32, reflect.Int64:
+	case reflect.Int, reflect.Int8, reflect.Int16, reflect.Int32, reflect.Int64,
+		reflect.Uint, reflect.Uint8, reflect.Uint16, reflect.Uint32, reflect.Uint64:
 		if isIntKind(b) {
 			return reflect.Int64
 		}
@@ -101,7 +104,8 @@ func joinKind(a, b reflect.Kind) reflect.Kind { //nolint: gocyclo
 
 func isIntKind(k reflect.Kind) bool {
 	switch k {
-	case reflect.Int, reflect.Int8, reflect.Int16, reflect.Int32, reflect.Int64:
+	case reflect.Int, reflect.Int8, reflect.Int16, reflect.Int32, reflect.Int64,
+		reflect.Uint, reflect.Uint8, reflect.Uint16, reflect.Uint32, reflect.Uint64:
 		return true
 	default:
 		return false
